@@ -462,6 +462,9 @@ class Gen:
             return out
         if c == "detach" and others:
             return [f"fdetach {r.choice(others)}"]
+        if c == "fpoll" and futs:
+            # poll a JoinHandle once without awaiting it (the handle stays usable by any task when Pending)
+            return [f"fpoll {r.choice(others if others and not r.chance(1, 10) else futs)}"]
         if c == "isfin" and futs:
             return [f"fis_finished {r.choice(futs)}"]
         if c == "lockawait" and self.names(objs, "mutex"):
@@ -599,6 +602,9 @@ PROFILES = {
               "min_tasks": 1, "extra_tasks": 2, "min_ops": 1, "extra_ops": 4},
     "kernel": {"objs": {"atomic": (1, 2)}, "weights": {"atomic": 5, "yield": 3, "sleep": 1, "rand": 2, "ctx": 1, "park": 1, "unpark": 2},
                "min_tasks": 1, "extra_tasks": 2, "min_ops": 1, "extra_ops": 5},
+    # park / unpark token semantics (one unpark satisfies exactly one park; spurious wake-ups are the scheduler's choice)
+    "park": {"objs": {"atomic": (1, 1)}, "weights": {"park": 5, "unpark": 4, "atomic": 1, "yield": 2},
+             "min_tasks": 2, "extra_tasks": 1, "min_ops": 2, "extra_ops": 3},
     "sem": {"objs": {"atomic": (1, 1), "sem": (1, 2)},
             "weights": {"sem": 7, "atomic": 1, "yield": 1, "rand": 1},
             "min_tasks": 1, "extra_tasks": 2, "min_ops": 1, "extra_ops": 3},
@@ -636,16 +642,16 @@ PROFILES = {
                 "min_tasks": 1, "extra_tasks": 2, "min_ops": 2, "extra_ops": 5},
     # ---- async layer (C17): `program_async`
     "async": {"async": True, "objs": {"atomic": (1, 1), "mutex": (0, 1), "wslot": (1, 2), "tls": (0, 1)},
-              "aweights": {"await": 8, "wake": 3, "atomic": 3, "lock": 1, "lockawait": 2, "yield": 1, "rand": 1, "isfin": 1, "tls": 1, "park": 1, "unpark": 1},
+              "aweights": {"await": 8, "wake": 3, "atomic": 3, "lock": 1, "lockawait": 2, "yield": 1, "rand": 1, "isfin": 1, "fpoll": 2, "tls": 1, "park": 1, "unpark": 1},
               "min_tasks": 1, "extra_tasks": 2, "min_ops": 1, "extra_ops": 3},
     "async_abort": {"async": True, "objs": {"atomic": (1, 1), "mutex": (0, 1), "wslot": (1, 2), "tls": (0, 1), "chan": (0, 1)},
-                    "aweights": {"await": 6, "wake": 2, "abort": 6, "detach": 2, "isfin": 2, "atomic": 2, "lockawait": 3, "yield": 1, "tls": 1, "send": 2, "recv": 2},
+                    "aweights": {"await": 6, "wake": 2, "abort": 6, "detach": 2, "isfin": 2, "fpoll": 3, "atomic": 2, "lockawait": 3, "yield": 1, "tls": 1, "send": 2, "recv": 2},
                     "joins": 8, "min_tasks": 1, "extra_tasks": 2, "min_ops": 1, "extra_ops": 3},
     "async_sem": {"async": True, "asem": True, "objs": {"atomic": (0, 1), "sem": (1, 2), "wslot": (0, 1)},
                   "aweights": {"asem": 10, "sem": 2, "await": 2, "wake": 1, "abort": 2, "atomic": 1, "yield": 1},
                   "min_tasks": 1, "extra_tasks": 2, "min_ops": 1, "extra_ops": 3},
     "async_dl": {"async": True, "objs": {"atomic": (0, 1), "mutex": (0, 1), "wslot": (1, 2)}, "wake_pairs": 3, "joins": 3, "detaches": 7,
-                 "aweights": {"await": 9, "wake": 1, "detach": 3, "atomic": 1, "lockawait": 2, "abort": 1, "panic": 1},
+                 "aweights": {"await": 9, "wake": 1, "detach": 3, "fpoll": 3, "atomic": 1, "lockawait": 2, "abort": 1, "panic": 1},
                  "min_tasks": 1, "extra_tasks": 2, "min_ops": 1, "extra_ops": 2},
     "locks": {"objs": {"atomic": (1, 2), "mutex": (1, 2), "rwlock": (0, 1)},
               "weights": {"atomic": 3, "yield": 1, "lock": 5, "rw": 3, "rand": 1},
